@@ -60,6 +60,11 @@ def check_type(value: Any, attr_type: Type) -> bool:
             or sys.version_info >= (3, 9)
             and isinstance(attr_type, types.GenericAlias)
         ):
+            type_check_hook = getattr(
+                attr_type.__origin__, "__spec_class_check_type__", None
+            )
+            if type_check_hook is not None:
+                return type_check_hook(value, attr_type)
             if not isinstance(value, attr_type.__origin__):
                 return False
             if attr_type.__origin__ in (list, set):
